@@ -36,6 +36,8 @@ THEOREMS = [
     "Nix.C19.C19_link_setters_touch_linked",
     "Nix.C19.C19_link_setter_local",
     "Nix.C19.C19_touch_targets",
+    "Nix.C19.C19_helpers_never_stamp",
+    "Nix.C19.C19_helper_call_unchanged",
     "Nix.C19.C19_creators_stamp_both",
     "Nix.C19.C19_factories_stamp_both",
     "Nix.C19.C19_factories_cover_kinds",
